@@ -1,3 +1,204 @@
-From Coq Require Import ZArith QArith Qcanon List Bool Lia.
+(* C19 — lemmas about Model/FD.v *)
+From Coq Require Import ZArith QArith Qcanon List Bool Lia Arith.
 From Pymoto Require Import Model.FD.
 Import ListNotations.
+Local Open Scope Qc_scope.
+
+(* ------------------------------------------------------------------ complex rationals *)
+Lemma k_eq (a b : K) : fst a = fst b -> snd a = snd b -> a = b.
+Proof. destruct a, b; cbn; intros; subst; reflexivity. Qed.
+
+Definition kscalei (d : Qc) (j : K) : K := (- (d * snd j), d * fst j).       (* (i d) * j *)
+
+Lemma diff_affine_pt f d j : ksub (kadd f (kscale d j)) f = kscale d j.
+Proof. apply k_eq; cbn; ring. Qed.
+Lemma diff_affine_pt_i f d j : ksub (kadd f (kscalei d j)) f = kscalei d j.
+Proof. apply k_eq; cbn; ring. Qed.
+Lemma div_scale d j : d <> 0 -> kdivr (kscale d j) d = j.
+Proof. intros H. apply k_eq; cbn; field; exact H. Qed.
+Lemma divi_scalei d j : d <> 0 -> kdivi (kscalei d j) d = j.
+Proof. intros H. apply k_eq; cbn; field; exact H. Qed.
+Lemma div_quad d j h : d <> 0 -> kdivr (kadd (kscale d j) (kscale (d * d) h)) d = kadd j (kscale d h).
+Proof. intros H. apply k_eq; cbn; field; exact H. Qed.
+
+Lemma kadd_0_l a : kadd k0 a = a. Proof. apply k_eq; cbn; ring. Qed.
+Lemma kadd_0_r a : kadd a k0 = a. Proof. apply k_eq; cbn; ring. Qed.
+Lemma kadd_assoc a b c : kadd a (kadd b c) = kadd (kadd a b) c. Proof. apply k_eq; cbn; ring. Qed.
+Lemma kadd_comm a b : kadd a b = kadd b a. Proof. apply k_eq; cbn; ring. Qed.
+Lemma kmul_add_l a b w : kmul (kadd a b) w = kadd (kmul a w) (kmul b w). Proof. apply k_eq; cbn; ring. Qed.
+Lemma kmul_scale_l d a w : kmul (kscale d a) w = kscale d (kmul a w). Proof. apply k_eq; cbn; ring. Qed.
+Lemma kscale_add d a b : kscale d (kadd a b) = kadd (kscale d a) (kscale d b). Proof. apply k_eq; cbn; ring. Qed.
+Lemma kscale_0 d : kscale d k0 = k0. Proof. apply k_eq; cbn; ring. Qed.
+Lemma kre_add a b : kre (kadd a b) = kre a + kre b. Proof. reflexivity. Qed.
+Lemma kim_add a b : kim (kadd a b) = kim a + kim b. Proof. reflexivity. Qed.
+Lemma kre_scale d a : kre (kscale d a) = d * kre a. Proof. reflexivity. Qed.
+Lemma kim_scale d a : kim (kscale d a) = d * kim a. Proof. reflexivity. Qed.
+
+(* ------------------------------------------------------------------ lists *)
+Lemma upd_length {A} (l : list A) i x : length (upd l i x) = length l.
+Proof. revert i; induction l as [|h t IH]; intros [|i]; cbn; auto. Qed.
+Lemma nth_upd_eq {A} (l : list A) i x d : (i < length l)%nat -> nth i (upd l i x) d = x.
+Proof. revert i; induction l as [|h t IH]; intros [|i] Hi; cbn in *; try lia; auto. apply IH; lia. Qed.
+Lemma nth_upd_neq {A} (l : list A) i j x d : i <> j -> nth j (upd l i x) d = nth j l d.
+Proof.
+  revert i j; induction l as [|h t IH]; intros [|i] [|j] Hij; cbn; auto; try congruence.
+  all: try (apply IH; congruence).
+Qed.
+Lemma upd_same {A} (l : list A) i d : upd l i (nth i l d) = l.
+Proof. revert i; induction l as [|h t IH]; intros [|i]; cbn; auto. f_equal. apply IH. Qed.
+Lemma upd_oob {A} (l : list A) i x : (length l <= i)%nat -> upd l i x = l.
+Proof. revert i; induction l as [|h t IH]; intros [|i] Hi; cbn in *; auto; try lia. f_equal. apply IH; lia. Qed.
+
+Lemma map2_map_l {A A' B D} (g : A' -> A) (f : A -> B -> D) a b : map2 f (map g a) b = map2 (fun x y => f (g x) y) a b.
+Proof. revert b; induction a as [|x a IH]; intros [|y b]; cbn; auto. f_equal. apply IH. Qed.
+
+Lemma diff_affine (d : Qc) f0 J : length J = length f0 ->
+  map2 ksub (map2 (fun f j => kadd f (kscale d j)) f0 J) f0 = map (kscale d) J.
+Proof.
+  revert J; induction f0 as [|f f0 IH]; intros [|j J] H; cbn in *; try discriminate; auto.
+  rewrite diff_affine_pt. f_equal. apply IH. lia.
+Qed.
+Lemma diff_affine_i (d : Qc) f0 J : length J = length f0 ->
+  map2 ksub (map2 (fun f j => kadd f (kscalei d j)) f0 J) f0 = map (kscalei d) J.
+Proof.
+  revert J; induction f0 as [|f f0 IH]; intros [|j J] H; cbn in *; try discriminate; auto.
+  rewrite diff_affine_pt_i. f_equal. apply IH. lia.
+Qed.
+Lemma diff_quad (d : Qc) f0 J Hs : length J = length f0 -> length Hs = length f0 ->
+  map2 ksub (map2 (fun f jh => kadd f (kadd (kscale d (fst jh)) (kscale (d * d) (snd jh)))) f0 (combine J Hs)) f0
+  = map (fun jh => kadd (kscale d (fst jh)) (kscale (d * d) (snd jh))) (combine J Hs).
+Proof.
+  revert J Hs; induction f0 as [|f f0 IH]; intros [|j J] [|h Hs] H1 H2; cbn in *; try discriminate; auto.
+  f_equal; [apply k_eq; cbn; ring|]. apply IH; lia.
+Qed.
+
+Lemma map_div_scale d J : d <> 0 -> map (fun a => kdivr a d) (map (kscale d) J) = J.
+Proof. intros H. rewrite map_map. rewrite <- (map_id J) at 2. apply map_ext. intros a. apply div_scale; exact H. Qed.
+Lemma map_divi_scalei d J : d <> 0 -> map (fun a => kdivi a d) (map (kscalei d) J) = J.
+Proof. intros H. rewrite map_map. rewrite <- (map_id J) at 2. apply map_ext. intros a. apply divi_scalei; exact H. Qed.
+
+Lemma ksum_cons x l : ksum (x :: l) = kadd x (ksum l).
+Proof. reflexivity. Qed.
+
+(* dot is linear in its first argument (the second one is broadcast according to the length of the first) *)
+Lemma ksum_app a b : ksum (a ++ b) = kadd (ksum a) (ksum b).
+Proof. unfold ksum. induction a as [|x a IH]; cbn; [symmetry; apply kadd_0_l|]. rewrite IH. apply kadd_assoc. Qed.
+
+Lemma dot_lin_aux (d : Qc) : forall (a b w : list K), length a = length b ->
+  ksum (map2 kmul (map2 (fun x y => kadd x (kscale d y)) a b) w) =
+  kadd (ksum (map2 kmul a w)) (kscale d (ksum (map2 kmul b w))).
+Proof.
+  induction a as [|x a IH]; intros [|y b] [|z w] H; cbn [map2 length] in *; try discriminate;
+    try (change (ksum []) with k0; rewrite kscale_0; symmetry; apply kadd_0_l).
+  rewrite !ksum_cons. rewrite IH by lia. rewrite kmul_add_l, kmul_scale_l, kscale_add.
+  generalize (ksum (map2 kmul a w)) (ksum (map2 kmul b w)) (kmul x z) (kmul y z). intros A B C D.
+  apply k_eq; cbn; ring.
+Qed.
+
+Lemma map2_length {A B D} (f : A -> B -> D) a b : length b = length a -> length (map2 f a b) = length a.
+Proof. revert b; induction a as [|x a IH]; intros [|y b] H; cbn in *; try discriminate; auto. Qed.
+
+Lemma dot_lin (d : Qc) a b w : length a = length b ->
+  dot (map2 (fun x y => kadd x (kscale d y)) a b) w = kadd (dot a w) (kscale d (dot b w)).
+Proof.
+  intros H. unfold dot. rewrite map2_length by (symmetry; exact H). rewrite <- H. apply dot_lin_aux; exact H.
+Qed.
+
+(* ------------------------------------------------------------------ reports of one perturbed state *)
+Record outinfo := { o_ref : sref; o_f0 : val; o_w : val; o_dx : list (option val) }.
+
+Definition mk_report (imag : bool) (x0 : K) (c : fdcfg) (iin k : nat) (o : outinfo) (g : K) : report :=
+  let an := an_entry (nth iin (o_dx o) None) k in
+  {| r_x0 := x0; r_dx := c_dx c; r_an := if imag then kim an else kre an; r_fd := if imag then kim g else kre g |}.
+
+(* characterisation: one tuple per output of interest, in order; the analytical value is the stored entry of the
+   backpropagated sensitivity, the numerical value the seed-weighted difference quotient *)
+Lemma collect_spec imag x0 c sf iin k s : forall (os : list outinfo) (fps : list val),
+  Forall2 (fun o fp => get_state (o_ref o) s = Some fp) os fps ->
+  collect imag x0 c sf iin k (map o_ref os) (map (fun o => Some (o_f0 o)) os) (map (fun o => Some (o_w o)) os)
+          (map o_dx os) s
+  = map (fun ofp =>
+           let d := map2 ksub (v_dat (snd ofp)) (v_dat (o_f0 (fst ofp))) in
+           let dfv := if imag then map (fun a => kdivi a (c_dx c * sf)) d else map (fun a => kdivr a (c_dx c * sf)) d in
+           mk_report imag x0 c iin k (fst ofp) (dot dfv (v_dat (o_w (fst ofp)))))
+        (combine os fps).
+Proof.
+  induction os as [|o os IH]; intros fps H; inversion H as [|? fp ? fps' Hg Hrest]; subst; [reflexivity|].
+  cbn [map collect combine]. rewrite Hg. rewrite (IH fps' Hrest). reflexivity.
+Qed.
+
+(* response affine along the perturbed entry: out(x + d e_k) = out(x) + d J  (J: column k of the Jacobian) *)
+Definition affine_re (d : Qc) (s : store) (o : outinfo) (J : list K) : Prop :=
+  exists fp, get_state (o_ref o) s = Some fp /\ length J = length (v_dat (o_f0 o)) /\
+             v_dat fp = map2 (fun f j => kadd f (kscale d j)) (v_dat (o_f0 o)) J.
+(* holomorphic: out(x + i d e_k) = out(x) + i d J *)
+Definition affine_im (d : Qc) (s : store) (o : outinfo) (J : list K) : Prop :=
+  exists fp, get_state (o_ref o) s = Some fp /\ length J = length (v_dat (o_f0 o)) /\
+             v_dat fp = map2 (fun f j => kadd f (kscalei d j)) (v_dat (o_f0 o)) J.
+(* degree 2: out(x + d e_k) = out(x) + d J + d^2 H *)
+Definition quadratic_re (d : Qc) (s : store) (o : outinfo) (J H : list K) : Prop :=
+  exists fp, get_state (o_ref o) s = Some fp /\ length J = length (v_dat (o_f0 o)) /\ length H = length (v_dat (o_f0 o)) /\
+             v_dat fp = map2 (fun f jh => kadd f (kadd (kscale d (fst jh)) (kscale (d * d) (snd jh))))
+                             (v_dat (o_f0 o)) (combine J H).
+
+Theorem collect_linear_exact x0 c sf iin k s : forall (os : list outinfo) (Js : list (list K)),
+  c_dx c * sf <> 0 ->
+  Forall2 (affine_re (c_dx c * sf) s) os Js ->
+  collect false x0 c sf iin k (map o_ref os) (map (fun o => Some (o_f0 o)) os) (map (fun o => Some (o_w o)) os)
+          (map o_dx os) s
+  = map (fun oj => mk_report false x0 c iin k (fst oj) (dot (snd oj) (v_dat (o_w (fst oj))))) (combine os Js).
+Proof.
+  intros os Js Hd. revert Js. induction os as [|o os IH]; intros Js H; inversion H as [|? J ? Js' Ha Hrest]; subst; [reflexivity|].
+  destruct Ha as (fp & Hg & Hl & Hv).
+  cbn [map collect combine]. rewrite Hg. rewrite (IH Js' Hrest). f_equal.
+  unfold mk_report. cbn [fst snd]. rewrite Hv, (diff_affine _ _ _ Hl), (map_div_scale _ _ Hd). reflexivity.
+Qed.
+
+Theorem collect_linear_exact_imag x0 c sf iin k s : forall (os : list outinfo) (Js : list (list K)),
+  c_dx c * sf <> 0 ->
+  Forall2 (affine_im (c_dx c * sf) s) os Js ->
+  collect true x0 c sf iin k (map o_ref os) (map (fun o => Some (o_f0 o)) os) (map (fun o => Some (o_w o)) os)
+          (map o_dx os) s
+  = map (fun oj => mk_report true x0 c iin k (fst oj) (dot (snd oj) (v_dat (o_w (fst oj))))) (combine os Js).
+Proof.
+  intros os Js Hd. revert Js. induction os as [|o os IH]; intros Js H; inversion H as [|? J ? Js' Ha Hrest]; subst; [reflexivity|].
+  destruct Ha as (fp & Hg & Hl & Hv).
+  cbn [map collect combine]. rewrite Hg. rewrite (IH Js' Hrest). f_equal.
+  unfold mk_report. cbn [fst snd]. rewrite Hv, (diff_affine_i _ _ _ Hl), (map_divi_scalei _ _ Hd). reflexivity.
+Qed.
+
+Lemma map_div_quad d J Hs : d <> 0 -> length J = length Hs ->
+  map (fun a => kdivr a d) (map (fun jh => kadd (kscale d (fst jh)) (kscale (d * d) (snd jh))) (combine J Hs))
+  = map2 (fun j h => kadd j (kscale d h)) J Hs.
+Proof.
+  intros Hd. revert Hs; induction J as [|j J IH]; intros [|h Hs] Hl; cbn in *; try discriminate; auto.
+  rewrite div_quad by exact Hd. f_equal. apply IH. lia.
+Qed.
+
+(* degree-2 responses: the numerical value is the exact derivative plus dx*sf times the second-order term *)
+Theorem collect_quadratic_error x0 c sf iin k s : forall (os : list outinfo) (JHs : list (list K * list K)),
+  c_dx c * sf <> 0 ->
+  Forall2 (fun o jh => quadratic_re (c_dx c * sf) s o (fst jh) (snd jh)) os JHs ->
+  collect false x0 c sf iin k (map o_ref os) (map (fun o => Some (o_f0 o)) os) (map (fun o => Some (o_w o)) os)
+          (map o_dx os) s
+  = map (fun oj =>
+           let w := v_dat (o_w (fst oj)) in
+           mk_report false x0 c iin k (fst oj)
+                     (kadd (dot (fst (snd oj)) w) (kscale (c_dx c * sf) (dot (snd (snd oj)) w))))
+        (combine os JHs).
+Proof.
+  intros os JHs Hd. revert JHs. induction os as [|o os IH]; intros JHs H;
+    inversion H as [|? [J Hq] ? JHs' Ha Hrest]; subst; [reflexivity|].
+  destruct Ha as (fp & Hg & Hl1 & Hl2 & Hv). cbn [fst snd] in *.
+  cbn [map collect combine]. rewrite Hg. rewrite (IH JHs' Hrest). f_equal.
+  unfold mk_report. cbn [fst snd]. rewrite Hv, (diff_quad _ _ _ _ Hl1 Hl2), (map_div_quad _ _ _ Hd) by congruence.
+  rewrite dot_lin by congruence. reflexivity.
+Qed.
+
+(* a tuple matches exactly when the claimed sensitivity entry equals the true one *)
+Corollary report_match_iff imag x0 c iin k o (truth : K) :
+  let r := mk_report imag x0 c iin k o truth in
+  r_an r = r_fd r <->
+  (if imag then kim (an_entry (nth iin (o_dx o) None) k) = kim truth
+   else kre (an_entry (nth iin (o_dx o) None) k) = kre truth).
+Proof. destruct imag; cbn; tauto. Qed.
